@@ -20,6 +20,8 @@ pub mod fm {
     pub uninterp spec fn fln(a: f64) -> f64;
     pub uninterp spec fn fexp(a: f64) -> f64;
     pub uninterp spec fn fmax(a: f64, b: f64) -> f64;
+    pub uninterp spec fn fmin(a: f64, b: f64) -> f64;
+    pub uninterp spec fn fabs(a: f64) -> f64;
 
     pub broadcast axiom fn ax_mul_req(a: f64, b: f64) ensures #[trigger] a.mul_req(b);
     pub broadcast axiom fn ax_add_req(a: f64, b: f64) ensures #[trigger] a.add_req(b);
@@ -46,6 +48,10 @@ pub mod fm {
         ensures r == fexp(a);
     pub assume_specification[ f64::max ](a: f64, b: f64) -> (r: f64)
         ensures r == fmax(a, b);
+    pub assume_specification[ f64::min ](a: f64, b: f64) -> (r: f64)
+        ensures r == fmin(a, b);
+    pub assume_specification[ f64::abs ](a: f64) -> (r: f64)
+        ensures r == fabs(a);
 
     // ---- FM-order
     pub uninterp spec fn nan(x: f64) -> bool;
@@ -96,6 +102,14 @@ pub mod fm {
         ensures fin(#[trigger] fmax(a, b)),
                 rv(fmax(a, b)) == (if rv(a) >= rv(b) { rv(a) } else { rv(b) }),
                 fmax(a, b) == a || fmax(a, b) == b;
+    pub broadcast axiom fn ax_fmin_r(a: f64, b: f64)
+        requires fin(a), fin(b)
+        ensures fin(#[trigger] fmin(a, b)),
+                rv(fmin(a, b)) == (if rv(a) <= rv(b) { rv(a) } else { rv(b) }),
+                fmin(a, b) == a || fmin(a, b) == b;
+    pub broadcast axiom fn ax_fabs_r(a: f64)
+        requires fin(a)
+        ensures fin(#[trigger] fabs(a)), rv(fabs(a)) == (if rv(a) >= 0real { rv(a) } else { -rv(a) });
     pub broadcast axiom fn ax_fln_r(a: f64)
         requires fin(a), rv(a) > 0real
         ensures fin(#[trigger] fln(a)), rv(fln(a)) == lnr(rv(a));
@@ -113,6 +127,6 @@ pub mod fm {
                 o == Some(core::cmp::Ordering::Equal) <==> (!nan(a) && !nan(b) && ord(a) == ord(b));
     pub broadcast group float_order { ax_lt, ax_le, ax_gt, ax_ge, ax_pcmp }
     pub broadcast group float_real { ax_fin_ord, ax_fmul_r, ax_fadd_r, ax_fsub_r, ax_fdiv_r, ax_fneg_r,
-                                     ax_ffma_r, ax_frecip_r, ax_fmax_r, ax_fln_r, ax_fexp_r }
+                                     ax_ffma_r, ax_frecip_r, ax_fmax_r, ax_fmin_r, ax_fabs_r, ax_fln_r, ax_fexp_r }
     }
 }
